@@ -371,6 +371,7 @@ func (p *Parser) varDecl(attrs []Attribute) (*VarDecl, *ParseError) {
 		if p.match(TokenComma) {
 			if p.check(TokenIdent) {
 				accessMode = p.advance().Lexeme
+				p.match(TokenComma) // trailing comma
 			}
 		}
 		p.expect(TokenGreater)
